@@ -184,7 +184,7 @@ class Extractor:
                     return self.expr(node.value, env)
                 # attribute of a known value?
                 base = _dotted(node.value)
-                if base is not None and base in env:
+                if base is not None and base in env and not isinstance(env[base], Opaque):
                     return self.attr_of(env[base], node.attr, node, env)
                 return self.on_attr(d, node, env)
             if self.strip_location and node.attr in LOC_ATTRS:
